@@ -189,6 +189,9 @@ type CaseSet struct {
 }
 
 // correspond runs all cases on both sides and compares.
+// implOnly: VERIF_IMPL_ONLY=1 — run the implementation and the property oracles only.
+var implOnly = os.Getenv("VERIF_IMPL_ONLY") == "1"
+
 func correspond(sets []CaseSet) *RunStats {
 	st := &RunStats{Outcomes: map[string]int{}, Sets: map[string]int{}}
 	var all []string
@@ -237,8 +240,18 @@ func correspond(sets []CaseSet) *RunStats {
 			var wg2 sync.WaitGroup
 			wg2.Add(2)
 			go func() { defer wg2.Done(); io1, hangs = runImpl(lines) }()
-			go func() { defer wg2.Done(); mo = runModel(lines) }()
+			go func() {
+				defer wg2.Done()
+				if !implOnly {
+					mo = runModel(lines)
+				}
+			}()
 			wg2.Wait()
+			if implOnly {
+				// failing-input search without the model (its facts could not be regenerated): only
+				// the property oracles look at the implementation's results
+				mo = io1
+			}
 			mu.Lock()
 			st.Hangs += hangs
 			mu.Unlock()
